@@ -156,6 +156,15 @@ func constantTerm(v constant.Value, t types.Type) Term {
 // lookupLocal resolves a source-level variable name at block `at`.
 func (fr *Frame) lookupLocal(name string, at *ssa.BasicBlock, st *State) (SVal, bool) {
 	fn := fr.fn
+	// a captured variable is a cell: its value is whatever the cell holds in the state at hand, not an earlier load
+	for _, fv := range fn.FreeVars {
+		if fv.Name() == name {
+			if pt, ok := fv.Type().Underlying().(*types.Pointer); ok && !isStruct(pt.Elem()) && !isArray(pt.Elem()) {
+				lv := fr.fx.pointee(fr.val(fv), pt.Elem())
+				return sv(fr.fx.readLV(st, lv), pt.Elem()), true
+			}
+		}
+	}
 	if at != nil {
 		// phis in `at`
 		for _, in := range at.Instrs {
